@@ -29,7 +29,7 @@ def blackbox(ctx, A, fn, in_shape, in_dtype, exact, key, unit, what_prefix):
     """returns True if a concrete non-linearity was found (and reported)."""
     rng = ctx.rng
     cplx = L.is_complex(in_dtype)
-    tol = 0.0 if exact else (1e-4 if np.dtype(in_dtype).itemsize < 8 or np.dtype(in_dtype) == np.complex64 else 1e-9)
+    tol = 0.0 if exact else (1e-4 if not L.is_double(in_dtype) else 1e-9)
     found = False
     try:
         z = fn(L.unflat(np.zeros(L.size_of(in_shape)), in_shape, in_dtype))
@@ -91,7 +91,7 @@ def run(ctx: Ctx):
                 eqs, out, unsup = J.dump(fn, shp, dt)
             except Exception as ex:
                 ctx.notes.append(f"jaxpr of {e.cls} {which} not available ({type(ex).__name__}); black-box only")
-                blackbox(ctx, A, fn, shp, dt, e.kind == L.EXACT and np.dtype(dt).itemsize >= 8, key, e.cls, which)
+                blackbox(ctx, A, fn, shp, dt, e.kind == L.EXACT and L.is_double(dt), key, e.cls, which)
                 continue
             for u in unsup:
                 unsupported_all[u] = unsupported_all.get(u, 0) + 1
@@ -114,7 +114,7 @@ def run(ctx: Ctx):
         codes += [int(t.strip().replace("%nat", "")) for t in m.group(1).split(";") if t.strip()]
     n_acc = 0
     for (key, which, cplx, eqs, out, e, fn, shp, dt, unsup), code in zip(progs, codes):
-        exact = e.kind == L.EXACT and np.dtype(dt).itemsize >= 8
+        exact = e.kind == L.EXACT and L.is_double(dt)
         found = blackbox(ctx, None, fn, shp, dt, exact, key, e.cls, which + " map")
         if code == 0:
             n_acc += 1
@@ -156,5 +156,5 @@ def replay(ctx: Ctx, rec):
     bad = False
     for which, fn, shp, dt in (("forward", A, A.input_shape, A.input_dtype), ("adjoint", A.adj, A.output_shape, A.output_dtype)):
         for _ in range(8):
-            bad |= blackbox(c2, None, fn, shp, dt, e.kind == L.EXACT and np.dtype(dt).itemsize >= 8, key, e.cls, which)
+            bad |= blackbox(c2, None, fn, shp, dt, e.kind == L.EXACT and L.is_double(dt), key, e.cls, which)
     return not bad
